@@ -36,7 +36,8 @@ BOUNDS = {
              'a disconnect or silence (timeout), the rest succeeding; all '
              'RCPT outcome vectors; the same with the first recipient refused '
              '(550) beforehand, and with 3 recipients of which the first two '
-             'are refused differently (550, 452); a second message on a reused connection; '
+             'are refused differently (550, 452), and with a stray reply line '
+             'behind the EHLO/LHLO reply of the fresh connection; a second message on a reused connection; '
              'pipe relays (generic per-recipient, maildrop, dovecot-lda): '
              'symbolic exit status -3..255, output from a menu with symbolic '
              'first bytes, timeout; HTTP relay: symbolic status 200..599, '
@@ -77,6 +78,10 @@ def cells(tier):
     for pipe in (0, 1):
         out.append({'kind': 'smtp', 'lmtp': 0, 'pipe': pipe, 'n': 3,
                     'pre_reject': 2})
+    # an unsolicited reply line behind the EHLO/LHLO reply of a fresh
+    # connection, then any fault at any stage
+    out.append({'kind': 'smtp', 'lmtp': 1, 'pipe': 1, 'n': 2, 'unsol': 1})
+    out.append({'kind': 'smtp', 'lmtp': 0, 'pipe': 0, 'n': 1, 'unsol': 1})
     # the same address twice, before another recipient
     out.append({'kind': 'smtp', 'lmtp': 0, 'pipe': 1, 'n': 3, 'dup': 1})
     out.append({'kind': 'smtp', 'lmtp': 0, 'pipe': 0, 'n': 3, 'dup': 1})
@@ -193,9 +198,18 @@ def run_smtp(cell):
         over[('RCPT', 1)] = ('reply', '452', ['4.2.2 mailbox full'])
     ext = ('PIPELINING', '8BITMIME') if pipe else ('8BITMIME',)
     peers = []
+    hello = ('LHLO' if lmtp else 'EHLO', 0)
+    if cell.get('unsol') and fault != hello:
+        # a stray reply line right behind the EHLO/LHLO reply of the (fresh)
+        # connection: it answers no command of this attempt
+        over[hello] = ('reply', '250', ['hello'] + list(ext),
+                       [b'250 stray\r\n', b'451 4.3.0 hiccup\r\n'][
+                           api.choice('unsolicited', 2)])
 
     def creator(address):
         p = nc.ScriptedPeer(nc.ok_script(ext, over), lmtp=bool(lmtp))
+        if cell.get('unsol'):
+            p.client.use_fd = True
         peers.append(p)
         return p.start()
     kw = {}
